@@ -422,6 +422,25 @@ func (e *Exec) formatOne(caller *frame, spec string, verb byte, arg Value) Str {
 			return strFromBytes(sliceElems(v))
 		}
 	}
+	if st, ok := i.v.(Struct); ok && spec == "%v" {
+		// {f1 f2 ...}: fields may be symbolic, so format them in the engine
+		ut := under(i.t).(*types.Struct)
+		out := mkStr("{")
+		for k := range st {
+			if k > 0 {
+				out = concatStr(out, mkStr(" "))
+			}
+			ft := ut.Field(k).Type()
+			var fv Value
+			if _, isI := under(ft).(*types.Interface); isI {
+				fv = st[k]
+			} else {
+				fv = Iface{t: ft, v: st[k]}
+			}
+			out = concatStr(out, e.formatOne(caller, "%v", 'v', fv))
+		}
+		return concatStr(out, mkStr("}"))
+	}
 	g := e.marshalAny(i)
 	return mkStr(fmt.Sprintf(spec, g))
 }
